@@ -5,7 +5,7 @@ cd "$(dirname "$0")"
 export GOFLAGS=-mod=mod GOPROXY=off GOSUMDB=off GOTOOLCHAIN=local
 mkdir -p build/bin evidence
 # gate: nothing forbidden anywhere in the development
-if grep -rnE '\b(Admitted|admit|Axiom|Parameter|Conjecture)\b|Unset Guard|bypass_check|type-in-type|impredicative-set' coq/theories coq/_CoqProject; then
+if grep -rnE '\b(Admitted|admit|Axiom|Parameter|Conjecture)\b|Unset Guard|bypass_check|type-in-type|impredicative-set' coq/theories coq/srcthm coq/_CoqProject; then
   echo "forbidden construct in the Coq development" >&2; exit 1
 fi
 (cd coq && coq_makefile -f _CoqProject -o Makefile && timeout 3000 make -j16 > ../build/coq-build.log 2>&1) || { tail -30 build/coq-build.log; exit 1; }
